@@ -7,25 +7,7 @@ import ZanVerif.Raft.RaftInv0Step
 namespace Z.RaftAbs
 open Z.LogMatch
 
-def init : St where
-  term := fun _ => 0
-  role := fun _ => Role.follower
-  log := fun _ => []
-  commit := fun _ => 0
-  msgs := []
-  hbs := []
-  tlog := fun _ => []
-  elected := []
-  camp := []
-  candLog := fun _ => []
-  voted := []
-  acks := []
-  dterm := fun _ => 0
-  dlog := fun _ => []
-  dcommit := fun _ => 0
-  scamp := []
-  svoted := []
-  sacks := []
+-- `init` (the initial state) is defined in RaftAbs.lean
 
 theorem pfx_nil (tlog : Nat → Log) : Pfx tlog [] := by
   intro k hk hkl; simp at hkl; omega
